@@ -205,6 +205,9 @@ def check(par, links, names, milestones, sections, clock_off, acc, base_cache, s
     n = len(par)
     lv = [i for i in range(n) if LY.is_leaf(par, i)]
     attrs = {i: {'estimate': 4, 'resource': 'A'} for i in lv}
+    with_ext = spent == ('ext',)
+    if with_ext:
+        spent = None
     if spent is not None:
         for k, i in enumerate(lv):
             attrs[i]['spent'] = spent[k % len(spent)]
@@ -214,7 +217,12 @@ def check(par, links, names, milestones, sections, clock_off, acc, base_cache, s
     tl = LY.mk_tasks(par, attrs)
     if idmap is not None:
         tl = [(idmap[k], p, a) for k, (_, p, a) in enumerate(tl)]
-    sc = Scenario('fwd', True, MON, tl, list(links), clock=MON - 30 * DAY, layer='C19')
+    ext, ext_links = [], []
+    if with_ext:
+        # the last task also waits for a task of another, already scheduled plan (id 101, not an id of this WBS)
+        ext = [(101, {'start': MON - 10 * DAY, 'end': MON - 9 * DAY, 'estimate': 4})]
+        ext_links = [(('e', 0), ('x', n - 1))]
+    sc = Scenario('fwd', True, MON, tl, list(links), clock=MON - 30 * DAY, layer='C19', ext=ext, ext_links=ext_links)
     ex = execute(sc)
     if ex.status != 'ok':
         raise runtime.HarnessError('C19 input did not schedule: ' + sc.key())
@@ -344,6 +352,9 @@ def _work(chunk):
         for spent in ((2,), (4, 12), (12, 0)):
             for clock_off in (timedelta(days=-5), timedelta(hours=2)):
                 jobs.append((par, links, (), {}, clock_off, 0, spent))
+        # a dependency on a task outside the rendered WBS is a dependency: it gets its link / edge like the others
+        for clock_off in (timedelta(hours=2),):
+            jobs.append((par, links, (), {}, clock_off, 0, ('ext',)))
     # ids with several digits / characters: two different links may concatenate to the same text ("1"+"12" == "11"+"2")
     flat4 = (None, None, None, None)
     for links in LY.link_sets(flat4, 2):
@@ -352,6 +363,7 @@ def _work(chunk):
                 jobs.append((flat4, links, (), {}, timedelta(hours=2), 0, ('ids', idk)))
     for (par, links, ms, sec, clock_off, pos, spent) in jobs[i::n]:
         idmap = None
+        extv = spent == ('ext',)
         if isinstance(spent, tuple) and spent and spent[0] == 'ids':
             idmap = IDMAPS[spent[1]]
             spent = None
@@ -360,7 +372,7 @@ def _work(chunk):
         base_names[pos] = 'x'
         wb, tb, depb, resb, clock = check(par, links, base_names, ms, sec, clock_off, acc, None, spent, idmap)
         adv_id = (idmap[pos] if idmap is not None else sorted(t.id for t in tb)[pos])
-        for nm in (NAMES if (spent is None and idmap is None) else NAMES[:3]):
+        for nm in (NAMES if (spent is None and idmap is None) else NAMES[:3]):  # ('ext',) counts as a spent-variant: three names
             names = list(base_names)
             names[pos] = nm
             w, tasks, deps, res, clock = check(par, links, names, ms, sec, clock_off, acc, None, spent, idmap)
@@ -368,8 +380,8 @@ def _work(chunk):
                 acc.count('evaluations')
                 case = {'parents': list(par), 'links': [list(x) for x in links], 'names': names, 'milestones': list(ms),
                         'sections': {str(a): b for a, b in sec.items()}, 'clock_offset_h': clock_off.total_seconds() / 3600, 'renderer': kind,
-                        'spent': list(spent) if spent else None}
-                cls = name_class(nm) if (spent is None and idmap is None) else 'spent-work' if idmap is None else 'long-ids'
+                        'spent': list(spent) if spent else None, 'external_predecessor_of_last_task': extv}
+                cls = name_class(nm) if (spent is None and idmap is None) else 'external-dependency' if extv else 'spent-work' if idmap is None else 'long-ids'
 
                 def V(clause, msg):
                     acc.violation('C19', f'{clause}/{cls}', f'name {nm!r}: {msg}', case)
